@@ -344,6 +344,29 @@ fn death_outcome(p: &mut Proc, kill: Kill, desc: Option<String>) -> Outcome {
         }
     }
     let joined = tail.join("\n");
+    // "memory allocation of N bytes failed": a request no machine could satisfy (>= 2^44 bytes) is a wrong size
+    // computed by the code under test, not a shortage of memory on this machine
+    let absurd = tail.iter().find_map(|l| {
+        let i = l.find("memory allocation of ")?;
+        let n: u128 = l[i + 21..].split_whitespace().next()?.parse().ok()?;
+        (n >= 1u128 << 44).then_some(n)
+    });
+    if let Some(n) = absurd {
+        let mut frame = String::new();
+        for l in &tail {
+            if let Some(i) = l.find("sux::") {
+                let f = &l[i..];
+                let f = f.split(" (").next().unwrap_or(f);
+                let f = f.split("::h").next().unwrap_or(f);
+                frame = f.trim().chars().take(120).collect();
+                break;
+            }
+        }
+        o.class = "abort".into();
+        o.sig = format!("absurd_allocation@{frame}");
+        o.msg = format!("worker aborted: memory allocation of {n} bytes requested (no machine has that much: a size computed wrongly) [{frame}]");
+        return o;
+    }
     if joined.contains("memory allocation of") || joined.contains("out of memory") || joined.contains("allocator is out of memory") || joined.contains("failed to allocate") {
         o.inconclusive = Some("oom".into());
         o.class = "oom".into();
@@ -986,7 +1009,39 @@ pub fn parent_main(prop: &dyn Property, args: ParentArgs) -> i32 {
         stop.store(true, Ordering::SeqCst);
         let _ = mon.join();
     }
-    inconclusive.extend(agg.inconclusive.iter().cloned());
+    // a watchdog hit during generation may be a stall of the machine (I/O, memory pressure) rather than of the
+    // case: every such case is run once more, alone, in a fresh worker with twice the limit; only a second
+    // hit stays inconclusive, a failure on the retry is an ordinary failure
+    let mut retried_ok = 0u64;
+    for inc in agg.inconclusive.clone() {
+        let why = inc.get("why").and_then(|w| w.as_str()).unwrap_or("");
+        let data = inc.get("case_hex").and_then(|h| h.as_str()).and_then(unhex);
+        match (why, data) {
+            ("watchdog", Some(data)) => {
+                let mut p = None;
+                let o = run_case(&sp, false, &mut p, &data, false, limit_s * 2);
+                if let Some(mut p) = p {
+                    let _ = p.stdin.write_all(b"quit\n");
+                    let _ = p.child.wait();
+                }
+                if o.inconclusive.is_some() {
+                    inconclusive.push(inc);
+                } else if o.ok {
+                    retried_ok += 1;
+                    agg.evaluations += 1;
+                } else {
+                    *agg.fail_counts.entry((o.class.clone(), o.sig.clone())).or_insert(0) += 1;
+                    let seg = inc.get("segment").and_then(|s| s.as_str()).unwrap_or("").to_string();
+                    let j = inc.get("index").and_then(|s| s.as_u64()).unwrap_or(0);
+                    agg.add_failure(FailRec { class: o.class.clone(), sig: o.sig.clone(), msg: o.msg.clone(), seg, j, data });
+                }
+            }
+            _ => inconclusive.push(inc),
+        }
+    }
+    if retried_ok > 0 {
+        agg.labels.insert("watchdog_then_passed_on_retry".into(), retried_ok);
+    }
 
     // ---- shrink each distinct failure signature -----------------------------
     let _ = std::fs::create_dir_all(args.out_replays_dir.join(&id));
